@@ -3,6 +3,8 @@ package props
 import (
 	"encoding/json"
 	"fmt"
+	"os"
+	"path/filepath"
 	"strings"
 	"testing"
 	"time"
@@ -24,6 +26,7 @@ func init() {
 		"set-based model: Base and Local[i] sets of names per kind; a lookup on temporary VM i resolves n <=> n in Base U Local[i], a lookup on the base VM resolves n <=> n in Base; checked for every VM and every name of the pool after every step, through GetClass / GetInterface / GetFunc / LoadPkg and through class_exists / function_exists / new / call in a script run on that VM",
 		"for a name defined on several VMs resolvability is asserted, and that the definition a script runs (each class reports the VM it was defined on) was made on the base VM or on the VM running the script, never on another temporary VM; which of those wins is not asserted",
 		"class names are case-insensitive: a class defined under the lower-case spelling of a pool name is the same name for resolution",
+		"classes that exist only as files below a namespace directory registered on the base VM: instantiating one on a VM autoloads it there; afterwards it resolves (plain GetClass, no loading lookup) on that VM only, or everywhere when the base VM loaded it",
 		"classes, interfaces and functions use separate name pools (no cross-kind collisions); shared write-through state (file cache, constants, globals) is intended sharing and not modelled",
 	)
 }
@@ -34,6 +37,7 @@ const (
 	opDefDirect = "def-direct" // define by calling Add* directly
 	opDiscard   = "discard"    // replace temp VM i by a fresh one
 	opScript    = "script"     // run a probing script on the VM (no state change expected)
+	opAutoload  = "autoload"   // a script on the VM instantiates \Auto\Ac<n>, which only exists as a file under a registered namespace directory
 )
 
 type tvOp struct {
@@ -95,6 +99,14 @@ func tempvmHandler(req *sb.Req) *sb.Rep {
 	for i := range temps {
 		temps[i] = newTemp()
 	}
+	// classes that exist only as files below a namespace directory registered on the base VM
+	autoDir, _ := os.MkdirTemp("", "c12-auto-")
+	defer os.RemoveAll(autoDir)
+	os.MkdirAll(filepath.Join(autoDir, "Auto"), 0o755)
+	for n := 0; n < cfg.Names; n++ {
+		os.WriteFile(filepath.Join(autoDir, "Auto", fmt.Sprintf("Ac%d.php", n)), []byte(fmt.Sprintf("<?php\nnamespace Auto;\nclass Ac%d { function who() { return 'auto%d'; } }\n", n, n)), 0o644)
+	}
+	base.AddNamespace("Auto", filepath.Join(autoDir, "Auto"))
 	vmOf := func(i int) data.VM {
 		if i < 0 {
 			return base
@@ -139,6 +151,9 @@ func tempvmHandler(req *sb.Req) *sb.Rep {
 					m[fmt.Sprintf("LoadPkg:class:%d", n)] = c != nil
 					c, _ = vm.LoadPkg(tvName("interface", n))
 					m[fmt.Sprintf("LoadPkg:interface:%d", n)] = c != nil
+					// autoloadable classes: a plain lookup only (LoadPkg would itself load the file)
+					_, ok = vm.GetClass(fmt.Sprintf("Auto\\Ac%d", n))
+					m[fmt.Sprintf("GetClass:auto:%d", n)] = ok
 				}()
 			}
 			row[v+1] = m
@@ -245,6 +260,23 @@ func tempvmHandler(req *sb.Req) *sb.Rep {
 				default:
 					vm.AddFunc(node.NewFunctionStatement(from, tvName("func", op.N), nil, []data.GetValue{node.NewReturnStatement(nil, node.NewStringLiteral(nil, "direct"))}, nil, nil, false))
 				}
+			case opAutoload:
+				s := fmt.Sprintf("<?php\n$o = new \\Auto\\Ac%d();\n", op.N)
+				seq++
+				file := fmt.Sprintf("/virtual/auto_%d.php", seq)
+				if t, ok := vm.(*runtime.TempVM); ok {
+					p := t.PrepareParse(e.P)
+					if prog, acl := p.ParseString(s, file); acl != nil {
+						out.Errors = append(out.Errors, "autoload script rejected: "+clip(acl.AsString(), 160))
+					} else {
+						prog.GetValue(t.CreateContext(p.GetVariables()))
+					}
+				} else {
+					p := e.P.Clone()
+					if prog, acl := p.ParseString(s, file); acl == nil {
+						prog.GetValue(base.CreateContext(p.GetVariables()))
+					}
+				}
 			case opDiscard:
 				if op.VM >= 0 {
 					temps[op.VM] = newTemp()
@@ -302,8 +334,11 @@ func c12Judge(pool *sb.Pool, rec *sb.Rec, cfg tvCfg) *failure {
 			fuzzy[nm] = true
 			continue
 		}
+		if op.Op == opAutoload {
+			nm = "auto:" + fmt.Sprint(op.N)
+		}
 		switch op.Op {
-		case opDefSrc, opDefDirect:
+		case opDefSrc, opDefDirect, opAutoload:
 			if op.VM < 0 {
 				base[nm] = true
 			} else {
@@ -365,7 +400,7 @@ func c12NonTrivial(cfg tvCfg) bool {
 	defined := map[string]int{}
 	for _, op := range cfg.Ops {
 		nm := op.Kind + ":" + fmt.Sprint(op.N)
-		if (op.Op == opDefSrc || op.Op == opDefDirect) && op.VM >= 0 {
+		if (op.Op == opDefSrc || op.Op == opDefDirect || op.Op == opAutoload) && op.VM >= 0 {
 			defined[nm] = op.VM + 1
 		}
 	}
@@ -404,6 +439,7 @@ func TestC12(t *testing.T) {
 		alpha = append(alpha, tvOp{Op: opDefDirect, VM: 0, Kind: kind, N: 1})
 	}
 	alpha = append(alpha, tvOp{Op: opDefSrc, VM: 0, Kind: "class", N: 0, Lower: true})
+	alpha = append(alpha, tvOp{Op: opAutoload, VM: 0, Kind: "auto", N: 0}, tvOp{Op: opAutoload, VM: -1, Kind: "auto", N: 1})
 	alpha = append(alpha, tvOp{Op: opDiscard, VM: 0}, tvOp{Op: opScript, VM: 0}, tvOp{Op: opScript, VM: 1}, tvOp{Op: opScript, VM: -1})
 	maxLen := 3
 	if cfg.Thorough() {
@@ -462,6 +498,9 @@ func TestC12(t *testing.T) {
 				op.Op = opDefDirect
 			case 6:
 				op.Op = opDiscard
+				if rapid.Bool().Draw(rt, "auto") {
+					op.Op, op.Kind = opAutoload, "auto"
+				}
 			default:
 				op.Op = opScript
 			}
